@@ -389,6 +389,11 @@ class _Table:
                 mi = MessageInterface(conn)
                 try:
                     mi.send_message(rq['line'])
+                    if rq.get('hangup'):
+                        # does not wait for the answer: the refusal meets a closed
+                        # connection (and is answered with a reset)
+                        conn.close()
+                        return
                     while True:
                         info['got'].append(mi.receive_message())
                 except baton.Abort:
